@@ -205,7 +205,16 @@ fn deliver_all(r: &mut Replica, order: &[ACmd], rng: Option<&mut Rng>, sink: &mu
             let mut i = 0;
             while i < order.len() {
                 let n = rng.range(1, 3).min((order.len() - i) as u64) as usize;
-                r.deliver(&mut t, sink, &order[i..i + n])?;
+                // Replica!AddOne: a command the transaction already has is skipped, so re-delivering
+                // earlier commands anywhere (also while the perspective opened on them is
+                // unwritten) must not change the outcome.
+                let mut batch: Vec<ACmd> = order[i..i + n].to_vec();
+                if i > 0 && rng.chance(1, 3) {
+                    let dup = order[rng.below(i as u64) as usize].clone();
+                    let at = rng.below(batch.len() as u64 + 1) as usize;
+                    batch.insert(at, dup);
+                }
+                r.deliver(&mut t, sink, &batch)?;
                 i += n;
                 if rng.chance(if flushy { 9 } else { 1 }, if flushy { 10 } else { 2 }) {
                     r.flush(&mut t)?;
